@@ -131,4 +131,51 @@ theorem traversals_differ_by_components (w : SameDir) (adj : List (Nat × Nat))
   revert a b
   cases w e.1 e.2 <;> cases x1 e.1 <;> cases x1 e.2 <;> cases x2 e.1 <;> cases x2 e.2 <;> simp [bxor]
 
+/-! ### the executable traversal computes the same flips -/
+
+theorem stepL_look (w : SameDir) (xl : List Bool) (xf : Flips) (e : Nat × Nat) (hx : ∀ i, look xl i = xf i)
+    (hlen : e.2 < xl.length) :
+    (∀ i, look (stepL w xl e) i = step w xf e i) ∧ (stepL w xl e).length = xl.length := by
+  have hfun : look xl = xf := funext hx
+  unfold stepL step
+  rw [hfun]
+  split
+  · refine ⟨?_, by simp⟩
+    intro i
+    unfold look setFlip
+    by_cases hi : i = e.2
+    · subst hi
+      have := hx e.2
+      unfold look at this
+      rw [List.getD_eq_getElem?_getD, List.getElem?_eq_getElem hlen] at this
+      simp only [Option.getD_some] at this
+      simp [List.getD_eq_getElem?_getD, hlen, this]
+    · have := hx i
+      unfold look at this
+      simp only [hi, if_false]
+      rw [← this]
+      simp [List.getD_eq_getElem?_getD, Ne.symm hi]
+  · exact ⟨hx, rfl⟩
+
+theorem foldl_stepL_look (w : SameDir) : ∀ (tree : List (Nat × Nat)) (xl : List Bool) (xf : Flips),
+    (∀ i, look xl i = xf i) → (∀ e ∈ tree, e.2 < xl.length) →
+    ∀ i, look (tree.foldl (stepL w) xl) i = (tree.foldl (step w) xf) i
+  | [], _, _, hx, _ => hx
+  | e :: t, xl, xf, hx, hn => by
+    have h := stepL_look w xl xf e hx (hn e (by simp))
+    simp only [List.foldl_cons]
+    exact foldl_stepL_look w t _ _ h.1 (fun e' he' => by rw [h.2]; exact hn e' (List.mem_cons_of_mem _ he'))
+
+/-- the list-valued traversal run by the driver is the traversal of the theorems -/
+theorem traverseL_eq (w : SameDir) (n : Nat) (tree : List (Nat × Nat)) (hn : ∀ e ∈ tree, e.2 < n) :
+    ∀ i, look (traverseL w n tree) i = traverse w tree i := by
+  unfold traverseL traverse
+  apply foldl_stepL_look
+  · intro i; unfold look
+    rw [List.getD_eq_getElem?_getD]
+    by_cases hi : i < n
+    · simp [hi]
+    · simp [hi]
+  · intro e he; simpa using hn e he
+
 end TV.Winding
